@@ -648,3 +648,9 @@ Proof. vm_compute. reflexivity. Qed.
 Example tree_guard_unsafe_valid_path :
   is_path_valid (B "/list[k=a]]b=c]/v") = true /\ tree_guard (B "/list[k=a]]b=c]/v") = Panic w_slice.
 Proof. split; vm_compute; reflexivity. Qed.
+
+(* the allocation guard of LeafSelectionQuery has content: without it the first merged update panics on a
+   configuration that exists but holds no value *)
+Example merge_writes_needs_allocation :
+  merge_writes false [] [B "/foo"] = Panic w_nilmap /\ forall vals ups, merge_writes true vals ups = Ok tt.
+Proof. split; [reflexivity | intros; reflexivity]. Qed.
